@@ -11,6 +11,7 @@ def run(R):
     obs += common.lemma_obligations(R, 'C16')
     check.discharge(R, obs, timeout=60)
     R.assumptions += [
+        'ghost views of table arrays (rule_from/rule_to/rule_month/era_until, reg_namekey/reg_zoneid/reg_zoneinfo) are DEFINED as the value stored at entry i of the unmodified table; instances of these definitions enter a proof only at the entry an accessor call touches (Contract.defs, assumed at call sites, never an obligation) -- a conservative definitional extension; the accessors themselves (rule(i), era(i), zoneInfo(i)) are verified for the address they return',
         'registry zone ids are pairwise distinct (ground obligation of C11 for the shipped registries; a hypothesis for other registries)',
         'virtual ZoneProcessorCache::getType() is a function of the cache object; the zone manager is verified for the <2> instantiations',
         'manual offset sum std + dst lies in (-32768, 32767] (16-bit representation of TimeOffset)',
